@@ -107,6 +107,7 @@ def build(repo, findings):
                       'fn redirect_open_options(shell: &Shell, kind: &ast::IoFileRedirectKind, options: &mut OpenOptions, expanded_file_path: &PathBuf, specified_fd_num: &Option<ShellFd>) -> ShellFd',
                       'redirect_open_options')
     oo.r1().resub(r'\n\}$', '\n    fd_num\n}', 'R6', 'wrapper epilogue returning the live variable `fd_num`', count=1)
+    oo.resub(r'\b(\w+)\s*\.symlink_metadata\(\)\s*\.is_ok_and\(\|m\| m\.is_file\(\)\)', r'path_is_file_nofollow(&\1)', 'R14', 'lstat probe chain -> stub (regular file, symbolic links not followed)', count=None)
     oo.sig(ret='r', requires=[C('aux fresh-options', '*old(options) == no_flags()')], ensures=[
         C('C10 open-flags', '*final(options) == want_flags(*kind, shell.opts().disallow_overwriting_regular_files_via_output_redirection, expanded_file_path.is_regular())'),
         C('C10 noclobber-never-truncates', '(*kind is Write && shell.opts().disallow_overwriting_regular_files_via_output_redirection) ==> !final(options).truncate && (expanded_file_path.is_regular() ==> final(options).create_new)'),
@@ -121,6 +122,7 @@ def build(repo, findings):
     rf.resub(r'shell\.absolute_path\(Path::new\((\w+)\.remove\(0\)\.as_str\(\)\)\)', r'shell_absolute_path(&*shell, \1.remove(0))', 'R14', 'Shell::absolute_path(Path::new(s)) -> stub (resolution against the shell\'s directory)', count=None)
     rf.resub(r'PathBuf::from\((\w+)\.remove\(0\)\)', r'pathbuf_from(\1.remove(0))', 'R14', 'PathBuf::from(String) -> stub', count=None)
     rf.resub(r'shell\s*\.open_file\(&options, &expanded_file_path, params\)\s*\.map_err\(\|err\| \{.*?\}\)\?', 'shell_open_file(&*shell, &*options, &expanded_file_path, &*params)?', 'R14', 'Shell::open_file(..).map_err(<message>)? -> stub with the same error path', flags=16)
+    rf.resub(r'\b(\w+)\s*\.symlink_metadata\(\)\s*\.is_ok_and\(\|m\| m\.is_file\(\)\)', r'path_is_file_nofollow(&\1)', 'R14', 'lstat probe chain -> stub (regular file, symbolic links not followed)', count=None)
     rf.resub(r'\n\}$', '\n    Ok(())\n}', 'R6', 'wrapper epilogue `Ok(())`', count=1)
     rf.at_body_start('redirect_to_file', 'broadcast use axiom_resolve_absolute;\nlet ghost word = expanded_fields@[0]@;')
     NOCLOB = 'old(shell).opts().disallow_overwriting_regular_files_via_output_redirection'
